@@ -3,6 +3,7 @@ import HttpcoreModel.Drv.C20
 import HttpcoreModel.Drv.H1
 import HttpcoreModel.Drv.H1W
 import HttpcoreModel.Drv.Pool
+import HttpcoreModel.Drv.Est
 /-!
 Line-protocol driver: one case per input line, one answer per output line.
 First token selects the model function.  Imports model files only (no proofs, no Mathlib).
@@ -21,6 +22,7 @@ def dispatch (line : String) : String :=
     else if cmd = "h1write" then Drv.h1write args
     else if cmd = "h2hdrs" then Drv.h2hdrs args
     else if cmd = "poolpass" then Drv.poolpass args
+    else if cmd = "est" then Drv.est args
     else "bad-cmd"
 
 partial def loop (h : IO.FS.Stream) (out : IO.FS.Stream) : IO Unit := do
